@@ -55,6 +55,9 @@ Definition psim_step (s : plt) (sts : list rst) (pis : list (req * pinf)) (a : p
       | _, _ => (s, sts, pis, [])
       end
   | PA (SStart r) => let '(s', sts', ms) := sim_step s sts (SStart r) in (s', sts', pis, ms)
+  (* Responder.v's request-hook pause (C03's SStartPaused / SUnpause) is a different mechanism from the block-hook
+     and API pauses modelled here; schedules of this model do not use it *)
+  | PA (SStartPaused _) | PA (SUnpause _) => (s, sts, pis, [])
   | PA (SStep r) =>
       match aget r pis, rst_find r sts with
       | Some pi, Some x =>
